@@ -179,6 +179,10 @@ SAMEKEY_FAMILIES = {
     'para_breaks': ['same line\nnext\n', 'same line  \nnext\n', 'same line\\\nnext\n', 'same line\n\nnext\n'],
     'list_marker': ['- item\n- two\n', '* item\n* two\n', '1. item\n2. two\n', '3) item\n4) two\n', '- item\n\n- two\n'],
     'html_or_text': ['<b>x</b>\n', '\\<b>x\\</b>\n', '`<b>x</b>`\n', '<b>x</b>\n\n<b>x</b> y\n'],
+    # the same empty list item (same marker, same indentation) as last item before other content, in the middle of a list,
+    # tight, and as the whole list: looseness and end-of-list bookkeeping differ
+    'empty_item': ['1. a\n2.\n\ntext\n', '1. a\n2.\n\n3. c\n', '1. a\n2.\n3. c\n', '2.\n', '1. a\n2.\n\n   x\n',
+                   '- a\n-\n\ntext\n', '- a\n-\n\n- c\n', '- a\n-\n- c\n'],
 }
 
 # seeded document synthesiser: templates whose slots are filled from SMALL SHARED pools, so that the documents of one random
